@@ -6,8 +6,16 @@ From Coq Require Import String.
 From Coq Require Import List ZArith NArith Bool Arith Lia.
 Import ListNotations.
 Require Import PyLib Str Md5 AsModel TextModel G_fn_sir G_fn_sir3 RefJun RefValue RefAs.
-Require RefItem.
 Notation vstr := RefJun.vstr.
+
+(* "|".join(numbers): a local copy of the helper (so that this file does not depend on the refinement of unrelated functions) *)
+Lemma join_strs_vstr sep : forall l, join_strs (map Z.of_N sep) (map vstr l) = Some (map Z.of_N (join sep l)).
+Proof.
+  induction l as [|x [|y l] IH]; [reflexivity|reflexivity|].
+  cbn [map join_strs join] in *. unfold RefJun.vstr in *. rewrite IH. now rewrite !map_app.
+Qed.
+Lemma py_join_vstr sep l : py_join (vstr sep) (VList (map vstr l)) = Normal (vstr (join sep l)).
+Proof. unfold py_join, RefJun.vstr at 1. cbn [py_iter PyLib.bind]. now rewrite join_strs_vstr. Qed.
 
 (* the unit holds its own copy of the translated _generate_as_number_replacement: the same function as the one RefAs speaks about *)
 Lemma same_replacement : G_fn_sir3.gen_AsNumberAnonymizer___generate_as_number_replacement = G_fn_sir.gen_AsNumberAnonymizer___generate_as_number_replacement.
@@ -98,7 +106,7 @@ Lemma pattern_text (nums : list str) :
     py_format (VStr [40;63;58;40;63;60;61;92;68;41;124;40;63;60;61;94;41;41;40;123;125;41;40;63;61;92;68;124;36;41]%Z) (VList [t1]) (VDict []))
   = Normal (vstr (as_pattern_text nums)).
 Proof.
-  change (VStr [124%Z]) with (vstr [124%N]). rewrite RefItem.py_join_vstr. cbn [PyLib.bind].
+  change (VStr [124%Z]) with (vstr [124%N]). rewrite py_join_vstr. cbn [PyLib.bind].
   unfold py_format, RefJun.vstr. cbn [List.length py_format_go take_until Z.eqb Pos.eqb rev app fmt_field PyLib.bind].
   unfold as_pattern_text, AS_TEMPLATE_HEAD, AS_TEMPLATE_TAIL. rewrite !map_app. cbn [map lit app Z.of_N]. rewrite <- !app_assoc. reflexivity.
 Qed.
